@@ -408,18 +408,21 @@ impl LexiconReader {
             x => (x, self.entries.len()),
         };
         for e in self.entries.iter() {
-            if e.left_id >= self.max_left {
+            // The matrix is addressed as cost(left node's right_id, right node's left_id):
+            // a word's left_id selects one of the `max_right` columns
+            // and its right_id one of the `max_left` rows.
+            if e.left_id >= self.max_right {
                 return ctx.err(BuildFailure::InvalidFieldSize {
                     actual: e.left_id as _,
-                    expected: self.max_left as _,
+                    expected: self.max_right as _,
                     field: "left_id",
                 });
             }
 
-            if e.right_id >= self.max_right {
+            if e.right_id >= self.max_left {
                 return ctx.err(BuildFailure::InvalidFieldSize {
                     actual: e.right_id as _,
-                    expected: self.max_right as _,
+                    expected: self.max_left as _,
                     field: "right_id",
                 });
             }
